@@ -76,6 +76,7 @@ Print Assumptions C16_add_sub.
    The proved statement below is about the exact value of the difference. *)
 Theorem C16_sub_rounding_partial : forall w n w', dt_add_ms w n = DOk w' -> dt_sub_ms w' w = n.
 Proof. exact add_sub_exact. Qed.
+Print Assumptions C16_sub_rounding_partial.
 
 (* clause 4 — ISO round trip for EVERY pair of offset functions (the process time zone is a parameter) *)
 Theorem C16_iso_roundtrip : forall (off_local off_utc : Z -> Z) w,
